@@ -86,6 +86,20 @@ def c15_gen(r, tier):
               {"path": {"parts": [{"$prim": "a"}, {"$prim": 0}]}, "cond": G.leaf("ValueDataType", "equal_to", {"$type": "int"}), "cast": {"str": "bool"}}])):
         yield {"schema": {"rules": copy.deepcopy(rules)}, "doc": enc(d), "tag": "overlapping-casts"}
         yield {"schema": {"rules": copy.deepcopy(rules[::-1])}, "doc": enc(d), "tag": "overlapping-casts"}
+    # rules with different casts over different nodes that hold the same string: each node gets its own rule's cast
+    for d, rules in (
+            ({"flag": "true", "counts": ["3", "true", "x"]},
+             [{"path": {"parts": [{"$prim": "flag"}]}, "cond": conds[1], "cast": {"str": "bool"}},
+              {"path": {"parts": [{"$prim": "counts"}, {"$p": "list"}]}, "cond": conds[3], "cast": {"str": "int"}}]),
+            ({"n": "1", "opts": {"a": "1", "b": "0"}},
+             [{"path": {"parts": [{"$prim": "n"}]}, "cond": conds[3], "cast": {"str": "int"}},
+              {"path": {"parts": [{"$prim": "opts"}, {"$p": "map"}]}, "cond": conds[1], "cast": {"str": "bool"}}]),
+            (["yes", ["yes", "1"], "1"],
+             [{"path": {"parts": [{"$prim": 0}]}, "cond": conds[1], "cast": {"str": "bool"}},
+              {"path": {"parts": [{"$prim": 2}]}, "cond": conds[3], "cast": {"str": "int"}},
+              {"path": {"parts": [{"$prim": 1}, {"$p": "list"}]}, "cond": ib, "cast": {"str": "int"}}])):
+        yield {"schema": {"rules": copy.deepcopy(rules)}, "doc": enc(d), "tag": "same-string-different-casts"}
+        yield {"schema": {"rules": copy.deepcopy(rules[::-1])}, "doc": enc(d), "tag": "same-string-different-casts"}
     for _ in range(n):
         d = r.choice(CAST_DOCS) if r.random() < 0.5 else G.gen_doc(r, 3)
         rules = []
@@ -165,6 +179,28 @@ def c18_sequence(w):
     """After any sequence of add_schema calls into one S, S.rules are the previous rules plus the re-rooted ones,
     shortest path first (stable), and every added T is unchanged."""
     V = ns()
+    if w.get("share"):
+        # one list object of rules handed to several schemas: a schema owns its rule list, the caller's list and the other
+        # schemas built from it are not touched by an addition
+        step = w["adds"][0]
+        base = [build_rule(rt, V) for rt in w["S"]["rules"]]
+        base_before = [id(x) for x in base]
+        if w["share"] == "from-T":
+            T = V.s.Schema(base)
+            S = V.s.Schema(T.rules)
+            other = T
+        else:
+            S, other = V.s.Schema(base), V.s.Schema(base)
+            T = build_schema(step["T"], V)
+        before, t_before = snap(other), snap(T)
+        S.add_schema(T, build_path(step["R"], V))
+        if snap(T) != t_before:
+            return Fail("added-schema-mutated:shared-list", "an added schema changed (S was built from T's rule list)")
+        if snap(other) != before:
+            return Fail("other-schema-mutated:shared-list", "a schema built from the same list of rules changed when rules were added to another")
+        if [id(x) for x in base] != base_before:
+            return Fail("callers-list-mutated", "the list of rules given to Schema(...) was changed by add_schema")
+        return None
     S = build_schema(w["S"], V)
     want = O.sorted_rules(w["S"]["rules"])
     for step in w["adds"]:
@@ -199,6 +235,11 @@ def c18_sequence_gen(r, tier):
                 T = mk(3)
             adds.append({"T": T, "R": {"parts": [{"$prim": r.choice(keys)} for _ in range(r.randint(0, 3))]}})
         yield {"S": mk(2), "adds": adds}
+    for i in range(12):
+        mk = lambda depth: {"rules": [{"path": {"parts": [{"$prim": r.choice(keys)} for _ in range(r.randint(0, depth))]},
+                                       "cond": G.gen_leaf(r, "Value", True)} for _ in range(r.randint(1, 3))]}
+        yield {"S": mk(2), "adds": [{"T": mk(2), "R": {"parts": [{"$prim": r.choice(keys)} for _ in range(r.randint(1, 2))]}}],
+               "share": "from-T" if i % 2 else "two-from-base"}
 
 
 @cases("C18", "add-schema")
